@@ -187,7 +187,7 @@ def _strtoul0(s, i):
     return v, k
 
 
-def safe_list_text(b, limit=1 << 20):
+def safe_list_text(b, limit=1 << 13):
     """Generator filter only (never an oracle): emulates hwloc__read_path_as_cpulist far enough to tell whether
     it would clear a range starting or ending beyond `limit` - a number >= 2^31 (mod 2^32) becomes a negative
     int and then a multi-hundred-megabyte bitmap, which neither the sanitized build nor the model driver can
